@@ -18,14 +18,12 @@ lemma / goal machinery of checks/geom_c20.py (lemmas are solver-proved before us
 The characterisations are validated numerically against mujoco.mju_rayGeom in unit geometry/validate.
 """
 
-import itertools
-
 import numpy as np
 import z3
 
 from checks import lib
 from checks import geom_c20
-from checks.geom_c20 import GInterp, Q, R, add, cross, dot, out_vec, pin_vec, scl, sub, vec_arg, veq
+from checks.geom_c20 import GInterp, Q, R, add, dot, out_vec, pin_vec, scl, sub, vec_arg, veq
 from wsym import core, kh
 from wsym.core import Vec
 
